@@ -349,7 +349,7 @@ Proof. exact ex_run_done. Qed.
 Print Assumptions C17_chain_example.
 
 (** * Extension 4 — the two links the chain extension left open *)
-From Leaspy Require Api.PersonalizeChainExec.
+From Leaspy Require Api.PersonalizeChainExec Api.PersonalizeChainExecR.
 From Leaspy Require Import Api.PersonalizeChainLink Api.PersonalizeChainLinkProofs Api.PersonalizeChainLinkQRProofs.
 
 (** (b) The proposal scales of the generated chain ARE C19's.  For every variable [v] of a successful run (any carrier, decision
@@ -420,6 +420,27 @@ Theorem C17_chain_simulation_T2 :
     Forall (fun kl => Forall (fun r => step_ok R Rplus Rmult Q2R decR attR regvR (step_map Q2R r)) (snd kl)) (o_trace o).
 Proof. exact run_case_real. Qed.
 Print Assumptions C17_chain_simulation_T2.
+
+(** ... and these hypotheses are MET, for every case, by the tables themselves read over R ([PersonalizeChainExecR]: same closeness
+    test and same uniform look-up, decided on R): whenever T2's re-execution of a recorded run succeeds, it is — injected — a run of the
+    real instance whose every call is a real step.  No hypothesis left but the success of the rational run (which T2 checks). *)
+Theorem C17_chain_simulation_T2_tables :
+  forall tol (c : PersonalizeChainExec.chain_case) o, PersonalizeChainExec.run_case tol c = Done o ->
+    personalize_run R Rplus Rmult Q2R (PersonalizeChainExecR.decide_ofR (PersonalizeChainExec.cc_dec c))
+                    (PersonalizeChainExecR.att_ofR tol (PersonalizeChainExec.cc_table c))
+                    (PersonalizeChainExecR.regv_ofR tol (PersonalizeChainExec.cc_table c))
+                    (PersonalizeChainExecR.regsum_ofR tol (PersonalizeChainExec.cc_table c))
+                    (PersonalizeChainExec.cc_scf c) (PersonalizeChainExec.cc_acf c)
+                    (PersonalizeChainExec.cc_nb c) (PersonalizeChainExec.cc_random c) (length (PersonalizeChainExec.cc_ids c))
+                    (PersonalizeChainExec.cc_orders c) (smap Q2R (PersonalizeChainExec.cc_init c)) (PersonalizeChainExec.cc_scales c)
+                    (tape_map Q2R (Build_tape (PersonalizeChainExec.cc_normals c) (PersonalizeChainExec.cc_uniforms c)))
+      = Done (out_map Q2R o) /\
+    Forall (fun kl => Forall (fun r => step_ok R Rplus Rmult Q2R (PersonalizeChainExecR.decide_ofR (PersonalizeChainExec.cc_dec c))
+                                               (PersonalizeChainExecR.att_ofR tol (PersonalizeChainExec.cc_table c))
+                                               (PersonalizeChainExecR.regv_ofR tol (PersonalizeChainExec.cc_table c)) (step_map Q2R r)) (snd kl))
+           (o_trace o).
+Proof. exact run_case_real_tables. Qed.
+Print Assumptions C17_chain_simulation_T2_tables.
 
 (** Non-vacuity: the example run computed over Q, its real counterpart (real oracles = sums over R, real decision = the same
     inequality decided on R), all six calls are real steps; some proposals accepted, some refused; and the scales of variable 0 along
